@@ -47,7 +47,7 @@ json generate(uint64_t seed, uint64_t idx, int tier)
 	plan["schemas"] = json::array({schema});
 	plan["knobs"] = {{"poison", true}, {"fill", r.chance(1, 2) ? 0xA5 : 0xFF}};
 	plan["world"] = {{"fs", json::array({{{"path", "/a"}, {"kind", "dir"}}, {{"path", "/b"}, {"kind", "dir"}}, fs_file("/a/f.conf", "# in /a\n"), fs_file("/b/f.conf", "# in /b\n"), fs_file("/a/only_a.conf", "# only in /a\n")})}};
-	int flags = r.chance(1, 3) ? F_COMMENTS : 0;
+	int flags = (r.chance(1, 3) ? F_COMMENTS : 0) | (r.chance(1, 6) ? F_NOCASE : 0);
 	json steps = json::array();
 	ApiGen ag;
 	ag.illegal = false;
@@ -309,6 +309,9 @@ JudgeOut judge(const json &plan)
 	for (auto &o : r.ops)
 		if (o.op == "init" && o.fail_fired)
 			out.k.add("probe.context_creation_ran_out_of_memory");
+	for (auto &c : r.conservation)
+		if (c.compare(0, 21, "declarations-modified") == 0)
+			out.viol.push_back({"library-wrote-to-callers-declarations", "cfg_init() changed the caller's declaration arrays: every context created from them later inherits the change", nullptr});
 	for (auto &c : r.conservation)
 		if (c.compare(0, 12, "foreign-free") == 0)
 			out.viol.push_back({"library-freed-callers-memory", "the library released memory it does not own (" + c + "): the caller's declarations are not the library's to free", nullptr});
